@@ -54,5 +54,11 @@ Check C07_dry_run_pure : forall script output,
   (forall args sin, ~ In (Spawn args sin) (d_events (run_dedupe true output script))).
 Check C07_tmp_cleaned : forall fails g files,
   fails SMkTmp = false -> exec_events true (group_run fails g files) [] = [].
+Check C07_tmp_dir_failure_aborts : forall fails g toks files,
+  g_transform g = Some toks -> fails SMkTmp = true ->
+  (exists e, snd (build_transform fails toks (g_in_place g) (g_no_copy g)) = Err e) /\
+  (forall c, In (Call c) (group_run fails g files) ->
+     c = CMkdirAll PTmpDir \/ (g_output g = true /\ c = CCreate POutFile)) /\
+  (forall args sin, In (Spawn args sin) (group_run fails g files) -> args = [] /\ sin = StdinNull).
 Check C07_tmp_cleaned_per_file : forall t f toks fails,
   exec_events false (run_file t f toks fails) [] = [].
